@@ -75,23 +75,6 @@ def LeftRun (dqr : Mat 𝕜 → Mat 𝕜 × Mat 𝕜) (ψ ψ' : MPS 𝕜) (nrm :
     ((RCLike.re (T.f 0 0 0) < 0 ∧ ψ' = ⟨ψ.qd, q0 :: qs, negLast As⟩ ∧ nrm = - RCLike.re (T.f 0 0 0)) ∨
      (¬ RCLike.re (T.f 0 0 0) < 0 ∧ ψ' = ⟨ψ.qd, q0 :: qs, As⟩ ∧ nrm = RCLike.re (T.f 0 0 0)))
 
-/-- last bond of the new chain is bounded by the last bond of the old chain -/
-theorem bondLe_last {d : Nat} : ∀ {Dl : Nat} {qs' qs : List (List Int)} (x y : List Int), BondLe d Dl qs' qs →
-    qs ≠ [] → ((x :: qs').getLast?.getD []).length ≤ ((y :: qs).getLast?.getD []).length
-  | _, [], [], _, _, _, h => absurd rfl h
-  | _, [], _ :: _, _, _, h, _ => by simp [BondLe] at h
-  | _, _ :: _, [], _, _, h, _ => by simp [BondLe] at h
-  | _, [q'], [q], _, _, h, _ => by
-    simp only [BondLe] at h
-    simp only [List.getLast?_cons_cons, List.getLast?_singleton, Option.getD_some]
-    omega
-  | _, [q'], _ :: _ :: _, _, _, h, _ => by simp [BondLe] at h
-  | _, _ :: _ :: _, [q], _, _, h, _ => by simp [BondLe] at h
-  | _, q' :: q2' :: qs', q :: q2 :: qs, x, y, h, _ => by
-    simp only [BondLe] at h
-    rw [List.getLast?_cons_cons, List.getLast?_cons_cons (a := y)]
-    exact bondLe_last q' q (by simp only [BondLe]; exact h.2.2) (by simp)
-
 section run
 variable {ψ ψ' : MPS 𝕜} {nrm : ℝ}
 
